@@ -14,6 +14,9 @@ import CkbVerif.Lemmas.IndexerWF
 import CkbVerif.Lemmas.IndexerFollow
 import CkbVerif.Lemmas.RichIndexer
 import CkbVerif.Lemmas.RichCells
+import CkbVerif.Lemmas.RichTxPage
+import CkbVerif.Lemmas.RichTxRows
+import CkbVerif.Lemmas.RichReach
 
 /-!
 # C18 — the indexer's answers equal filtering the chain's live cells and transactions
@@ -1080,15 +1083,17 @@ theorem rich_prefix_allff_witness :
      liveCell db ⟨1, 0⟩ ≠ none ∧ cellRows db true .pre ⟨1, [255]⟩ {} = []) := by
   decide
 
-/-- NEW deviation of the code (ungrouped `get_transactions` cursor): the offset of the cursor counts
-only the rows of the last transaction INSIDE the current page; with limit 1 and a transaction with
-two matching cells, the third call repeats the second page — the walk never reaches an empty page
-and never leaves that transaction. -/
+/-- the defect repaired by 706cf75 (F24; `getTxsPreF24` = the old cursor arithmetic: the offset
+counted only the rows of the last transaction INSIDE the current page): with limit 1 and a transaction
+with two matching cells, the third call repeats the second page — the walk never reaches an empty
+page and never leaves that transaction. With the repaired arithmetic the same calls advance. -/
 theorem rich_txs_cursor_cycle_witness :
     let db := appendBlock (appendBlock {} rb0) rb1
-    let p1 := getTxs db true .exact ⟨1, [1]⟩ {} false 1 (some (4, 1))
-    let p2 := getTxs db true .exact ⟨1, [1]⟩ {} false 1 (some p1.2)
-    p1.1 ≠ [] ∧ p2.1 = p1.1 ∧ p2.2 = p1.2 := by
+    let p1 := getTxsPreF24 db true .exact ⟨1, [1]⟩ {} false 1 (some (4, 1))
+    let p2 := getTxsPreF24 db true .exact ⟨1, [1]⟩ {} false 1 (some p1.2)
+    let r1 := getTxs db true .exact ⟨1, [1]⟩ {} false 1 (some (4, 1))
+    let r2 := getTxs db true .exact ⟨1, [1]⟩ {} false 1 (some r1.2)
+    p1.1 ≠ [] ∧ p2.1 = p1.1 ∧ p2.2 = p1.2 ∧ r1.1 = p1.1 ∧ r1.2 = (4, 2) ∧ r2.1 ≠ r1.1 ∧ r2.2 = (5, 1) := by
   decide
 
 /-- `get_cells_capacity` answers `None` (SUM is NULL) for a search without a matching cell even
@@ -1147,6 +1152,81 @@ theorem rich_get_cells_order (db : DB) (ls : Bool) (m : Mode) (q : Script) (f : 
 example : ((appendBlock (appendBlock {} rb0) rb1).outs.map (·.id)).Pairwise (· < ·) ∧
     (cellRows (appendBlock (appendBlock {} rb0) rb1) true .pre ⟨1, []⟩ {}).map (·.cur) = [2, 3] := by
   decide
+
+/-- **LIMIT / CURSOR of the rich-indexer's ungrouped `get_transactions`, repaired cursor (706cf75).**
+For EVERY database, search (lock / type, any mode, any filter), order (asc / desc) and limit ≥ 1:
+following `last_cursor` from the first call until a page comes back empty terminates (within
+`|answer| + 1` calls), every page has at most `limit` rows, and the pages concatenate to EXACTLY the
+unlimited ordered answer `sortByTx desc (txRows ..)` — which is a permutation of the matching rows
+(each exactly once) in non-decreasing (non-increasing for Desc) `tx_id`. The old arithmetic
+(`getTxsPreF24`) cycles: `rich_txs_cursor_cycle_witness`. -/
+theorem rich_get_transactions_pages_concat (db : DB) (ls : Bool) (m : Mode) (q : Script) (f : Filter)
+    (desc : Bool) (limit fuel : Nat) (hl : 1 ≤ limit)
+    (hf : (sortByTx desc (txRows db ls m q f)).length < fuel) :
+    (getTxsPages db ls m q f desc limit fuel none).flatten = sortByTx desc (txRows db ls m q f) ∧
+    (getTxsPages db ls m q f desc limit fuel none).getLast? = some [] ∧
+    (∀ p ∈ getTxsPages db ls m q f desc limit fuel none, p.length ≤ limit) ∧
+    (sortByTx desc (txRows db ls m q f)).Perm (txRows db ls m q f) ∧
+    SortedTx desc (sortByTx desc (txRows db ls m q f)) := by
+  have h := walk_pages db ls m q f desc limit hl fuel [] _ (by simp) hf
+  simp only [if_true] at h
+  exact ⟨h.1, h.2.1, h.2.2, perm_sortByTx desc _, sorted_sortByTx desc _⟩
+
+/-- not vacuous: limit 1 over the six matching rows of lock `1.[1]` (the walk that cycled before the repair) -/
+example :
+    (getTxsPages (appendBlock (appendBlock {} rb0) rb1) true .exact ⟨1, [1]⟩ {} false 1 9 none).map
+      (·.map fun r => (r.tx, r.isInput, r.io)) =
+      [[(1, false, 0)], [(2, false, 0)], [(3, false, 0)], [(4, false, 1)], [(4, true, 1)], [(5, true, 0)], []] := by
+  decide
+
+/-- **`get_transactions` of the rich-indexer = filter over the transaction / output / input relations**
+(any mode, any filter, lock or type search; rows before ORDER BY / LIMIT, whose paging is
+`rich_get_transactions_pages_concat`): a row is answered iff its transaction and block rows exist, the
+block number passes `block_range`, and it is (output) a matching output row of that transaction, or
+(input) an input row consumed by that transaction whose spent output row matches — searched script by
+mode and every output filter read on the SPENT cell. PARTIAL: stated over the relations; that the
+input rows are exactly the chain's resolved inputs (`replayTxLock` / `replayTxType` of the key-value
+theorems) is not proved (table dumps are compared with the chain replay on every history). -/
+theorem rich_get_transactions_rows_iff_partial (db : DB) (ls : Bool) (m : Mode) (q : Script) (f : Filter)
+    (r : RTxRow) :
+    r ∈ txRows db ls m q f ↔
+      ∃ t b, txById db r.txId = some t ∧ blockById db t.blockId = some b ∧
+        inRangeC f.blockRange b.number = true ∧ r.tx = t.hash ∧ r.bn = b.number ∧ r.txIdx = t.txIndex ∧
+        ((r.isInput = false ∧ ∃ o ∈ db.outs, outMatches db ls m q f o = true ∧ o.txId = r.txId ∧ o.index = r.io) ∨
+         (r.isInput = true ∧ ∃ i ∈ db.ins, ∃ o, db.outs.find? (fun o => o.id = i.outputId) = some o ∧
+            outMatches db ls m q f o = true ∧ i.consumedTx = r.txId ∧ i.index = r.io)) := by
+  rw [mem_txRows]
+  constructor
+  · rintro ⟨t, b, h1, h2, h3, h4, h5, h6, hu⟩
+    exact ⟨t, b, h1, h2, h3, h4, h5, h6, (mem_unionRows db ls m q f _ _ _).mp hu⟩
+  · rintro ⟨t, b, h1, h2, h3, h4, h5, h6, hu⟩
+    exact ⟨t, b, h1, h2, h3, h4, h5, h6, (mem_unionRows db ls m q f _ _ _).mpr hu⟩
+
+example : (txRows (appendBlock (appendBlock {} rb0) rb1) false .exact ⟨2, [5]⟩ {}).map
+    (fun r => (r.tx, r.isInput, r.io)) = [(2, false, 0), (4, false, 0)] := by
+  decide
+
+/-- **ORDER for every reachable database**: in every database reached from the empty one by ANY
+interleaving of `append` (any block, well-formed or not) and `rollback`, the output rows are in
+strictly ascending id order — so the hypothesis of `rich_get_cells_order` always holds: `get_cells`
+answers come strictly ascending in the cursor `output.id`, for every history. -/
+theorem rich_get_cells_order_reachable {db : DB} (h : Reachable db) (ls : Bool) (m : Mode) (q : Script)
+    (f : Filter) : ((cellRows db ls m q f).map (·.cur)).Pairwise (· < ·) :=
+  rich_get_cells_order db ls m q f (reachable_outsAsc h)
+
+example : Reachable (Rich.rollback (appendBlock (appendBlock {} rb0) rb1)) :=
+  .rollback _ (.append _ _ (.append _ _ .empty))
+
+/-- **towards `KeysOK` of every reachable database** (the hypothesis of
+`rich_get_cells_eq_filter_partial`): in every database reached by ANY interleaving of `append` (any
+block) and `rollback`, the transaction row ids and the output row ids are strictly ascending, hence
+pairwise distinct — clause 2 of `KeysOK` (`(db.txs.map id).Nodup`) holds unconditionally.
+PARTIAL: clauses 1 and 3 (unique transaction hashes, unique (tx_id, output_index)) need the delivered
+blocks to carry fresh transaction hashes (bit `a` of the `wf` op) and clause 4 (resolvable lock ids)
+needs the script-table invariant; they are not proved (checked through the table dumps). -/
+theorem rich_reachable_ids_partial {db : DB} (h : Reachable db) :
+    (db.txs.map (·.id)).Nodup ∧ (db.outs.map (·.id)).Nodup :=
+  ⟨asc_nodup _ (reachable_txsAsc h), asc_nodup _ (reachable_outsAsc h)⟩
 
 end RichIndexer
 
